@@ -15,6 +15,14 @@ def undo_pack_scripts(rng, n):
     transactions on both sides of the pack time (many must fail: the pre-state was packed away), reopen"""
     from ..drivers import scripts as sc
     out = []
+    # directed: undo / redo of a creation across the pack time, then undo of the redo after the pack; a write to an
+    # object that is garbage at the pack time, undone after the pack
+    for gc in (True, False):
+        out.append(sc.commit([(0, 'v1', (1,)), (1, 'v1', ())], clk=1) + sc.commit([(0, 'v2', (1, 2)), (2, 'v1', ())], clk=2)
+                   + sc.undo(-1, clk=3) + sc.undo(-1, clk=4) + sc.pack(3, gc) + sc.undo(-1, clk=5) + sc.reopen())
+        out.append(sc.commit([(0, 'v1', (1, 2)), (1, 'v1', ()), (2, 'v1', ())], clk=1) + sc.commit([(0, 'v2', (1,))], clk=2)
+                   + sc.commit([(2, 'v2', ())], clk=4) + sc.commit([(0, 'v1', (1, 2))], clk=5) + sc.pack(3, gc) + sc.undo(-2, clk=6)
+                   + sc.reopen())
     while len(out) < n:
         clk = 1
         s = sc.commit([(0, 'v1', (1, 2)), (1, 'v1', ()), (2, 'v1', ())], clk=clk)
@@ -83,7 +91,46 @@ def run(ctx):
         raise RuntimeError('vacuous run: only %d of %d scripts reach an undo after a pack' % (after_pack, len(behs)))
     if sum(1 for s_, b in zip(scripts, behs) if sc.complete(s_, b)) < len(behs) * 0.9:
         raise RuntimeError('directed undo/pack scripts were not evaluated to their end')
+    # pack transparency for later undos (differential, both sides evaluated by TLC): the same script without its pack
+    # entries; where every call has the same outcome in both, the final current states must agree - an object the
+    # history without the pack ends without must not exist with it, and an object reachable from the root must not
+    # be missing or different because of the pack
+    nopack = [[e for e in s_ if e['a'] != 'pack'] for s_ in scripts]
+    behs0 = sc.evaluate(ctx, 'undo-nopack', nopack, cs)
+    ndiff = 0
+    for s_, b1, b0, r1 in zip(scripts, behs, behs0, res2):
+        if r1['mismatch'] is not None or not sc.complete(s_, b1):
+            continue
+        o1 = [(st['action'], sd.norm(st['state']['res'])['out']) for st in b1 if st['action'] != 'Pack']
+        o0 = [(st['action'], sd.norm(st['state']['res'])['out']) for st in b0]
+        if o1 != o0:
+            continue
+        ndiff += 1
+        c1 = sd.norm(b1[-1]['state']['obs'])['cur']
+        c0 = sd.norm(b0[-1]['state']['obs'])['cur']
+        h0 = sd.norm(b0[-1]['state']['hist'])
+        reach, todo = set(), [0]
+        while todo:
+            o = todo.pop()
+            if o in reach or c0.get(o, {}).get('k') != 'rev':
+                continue
+            reach.add(o)
+            todo += list(c0[o]['d']['refs'])
+        for o in sorted(c0):
+            a0, a1 = c0[o], c1[o]
+            sig = None
+            if a0['k'] != 'rev' and a1['k'] == 'rev':
+                sig = 'object-exists-only-with-the-pack'
+            elif a0['k'] == 'rev' and o in reach and (a1['k'] != 'rev' or a1['d'] != a0['d']):
+                sig = 'reachable-object-differs-with-the-pack'
+            if sig:
+                ctx.violation({'kind': 'undo-after-pack', 'what': sig},
+                              'the same calls with the same outcomes end differently with and without the pack (specification = '
+                              'transcription of the code, which the real storage followed call by call): oid %d without pack %r, '
+                              'with pack %r; calls: %s' % (o, a0, a1, ' '.join(st['action'] + repr(tuple(sd.norm(st['args']))) for st in b1)[:700]),
+                              replay={'script': s_})
     cov = S.judge(ctx, res, 'file', focus=undone)
+    cov['pack_transparency_pairs_compared'] = ndiff
     cov['scripted_undo_pack'] = {'scripts': len(behs), 'with_undo_after_pack': after_pack,
                                  'evaluated_to_the_end': sum(1 for s_, b in zip(scripts, behs) if sc.complete(s_, b))}
     return ctx.finish({
